@@ -59,6 +59,22 @@ func main() {
 		for _, j := range jobs {
 			fmt.Println(j)
 		}
+	case "run": // debug: explore one job in-process and print the result
+		prog, h, err := loadProgram(false)
+		if err != nil {
+			fmt.Fprintln(os.Stderr, err)
+			os.Exit(2)
+		}
+		tier := 0
+		if len(os.Args) > 4 {
+			tier = tierNum(os.Args[4])
+		}
+		symterp.Tier = tier
+		m := symterp.NewMachine(prog)
+		res := m.Explore(h, h.Func(os.Args[2]+"_Run"), symterp.JobArgs(os.Args[3]), os.Args[3], symterp.ExploreOpts{MaxViolPerLabel: 3, MaxSamples: 2, MaxPaths: 100000, TimeBudget: 300 * time.Second})
+		res.Funcs = nil
+		b, _ := json.MarshalIndent(res, "", " ")
+		fmt.Println(string(b))
 	case "replay":
 		os.Exit(runReplayFile(os.Args[2]))
 	default:
